@@ -352,7 +352,16 @@ LAW(T2_tokens, RC, 40000, 2000000, 40, "string with >= 1 delimiter and >= 1 brac
   vector<string> pieces = refPieces(s, delims, solid);
   if (!allowEmpty) {
     // documented: empty tokens are ignored
-    if (solid && (pieces.front().empty() || pieces.back().empty())) c.excludeIfKnown("C17-solid-empty-ends");
+    // Weakest reading for the solid mode: an empty token at either END of the string is kept by the library (the wildcard matchers
+    // rely on it to know that a pattern starts / ends with '*'); the property statement only fixes the re-join law (T1), so both
+    // "end tokens kept" and "end tokens dropped" are accepted here; empty pieces in the middle must be dropped.
+    if (solid && (pieces.front().empty() || pieces.back().empty())) {
+      vector<string> kept = nonEmpty(pieces);
+      if (pieces.size() > 1 || !kept.empty()) { if (pieces.front().empty()) kept.insert(kept.begin(), ""); if (pieces.back().empty() && pieces.size() > 1) kept.push_back(""); }
+      else kept = pieces;   // the empty string: one empty token or none
+      c.label("solid_empty_end_token");
+      CHECK(tok == nonEmpty(pieces) || tok == kept, "tokens " << showList(tok) << " but the non-empty pieces are " << showList(nonEmpty(pieces)) << " (optionally with the empty end tokens " << showList(kept) << ")");
+    } else
     CHECK(tok == nonEmpty(pieces), "tokens " << showList(tok) << " but the non-empty pieces are " << showList(nonEmpty(pieces)));
   } else {
     // documented: empty tokens are allowed.  Weakest reading: the empty pieces before the first and after
@@ -653,7 +662,7 @@ LAW(V1_variables, RC, 30000, 1500000, 120, "a chain of >= 2 references, or an un
 }
 
 // ====================================================================== tables
-LAW(D1_table, RC, 20000, 1000000, 120, "table with row names") {
+LAW(D1_table, RC, 20000, 1000000, 160, "table with row names") {
   const string sep(1, c.pick(vector<char>{'\t', ',', ';', ' '}));
   int nCol = c.irange(1, 6);
   bool colNames = !c.oneIn(3);
